@@ -36,11 +36,12 @@ LEVEL_TEXT = ('static analysis: (D1) copy-on-write lost-write rule over cnvlib/s
               'depth 0. (D3c) transfer_fields as the whole-array methods call it -- a three-chromosome bin table with any edge chromosome wholly '
               "filtered out -- leaves every segment inside its own chromosome's bin span with positive length (no stretch to another chromosome's"
               " bins, no assertion failure); D3 also covers segments over antitarget / unnamed bins only (gene '-', not the previous segment's) "
-              'and D3b a bin whose weight equals min_weight (kept). (CLI) the `segment` command line(s), through a model of argparse built from '
-              'the declarations in commands.py and the real _cmd_ body interpreted with readers, library step and writers stubbed: method, '
-              'threshold, --drop-low-coverage, --drop-outliers, -p (with and without a number), --smooth-cbs, the PAR genome and the VCF options '
-              'reach do_segmentation as given. Does not decide sortedness / non-overlap / probe sums of haar and HMM output, nor which bins the '
-              'outlier filter drops.')
+              'and D3b a bin whose weight equals min_weight (kept). D3 also has filtered bins lying between two segments (they belong to '
+              'neither), D3b arms whose bins are all filtered (no segment, segmenter not called), and the bins / segments pairing per chromosome '
+              'is the C07-D6 rule. (CLI) the `segment` command line(s), through a model of argparse built from the declarations in commands.py '
+              'and the real _cmd_ body interpreted with readers, library step and writers stubbed: method, threshold, --drop-low-coverage, '
+              '--drop-outliers, -p (with and without a number), --smooth-cbs, the PAR genome and the VCF options reach do_segmentation as given. '
+              'Does not decide sortedness / non-overlap / probe sums of haar and HMM output, nor which bins the outlier filter drops.')
 TECHNIQUE = "copy-on-write lost-write lint + must-flow; index-kind lint; abstract interpretation of the aggregation; registry / effect rules"
 
 TF = "cnvlib.segmentation.transfer_fields"
